@@ -29,6 +29,8 @@ def instrOp : Instr → String × List Nat
   | .getLocal i => ("GetLocal", [i]) | .setLocal i => ("SetLocal", [i]) | .defLocal i => ("DefineLocal", [i])
   | .closure c n => ("Closure", [c, n]) | .currClosure => ("CurrClosure", [])
   | .getFree i => ("GetFree", [i]) | .setFree i => ("SetFree", [i])
+  | .array n => ("Array", [n]) | .hmap n => ("Map", [n]) | .getIndex => ("GetIndex", []) | .setIndex => ("SetIndex", [])
+  | .getBuiltin i => ("GetBuiltinFn", [i])
 
 def encodeI (i : Instr) : List Nat :=
   let (n, ops) := instrOp i
@@ -42,7 +44,8 @@ def encode (is : List Instr) : List Nat := (is.map encodeI).flatten
 theorem encodeI_length_shapes :
     ([Instr.const 300, .pop, .op .add, .op .shr, .tru, .fls, .null, .minus, .bang, .bnot, .jump 70000, .jif 5, .jifnp 65535,
       .getGlobal 1, .setGlobal 2, .defGlobal 3, .dup, .call 3, .retv, .ret, .getLocal 200, .setLocal 1, .defLocal 0,
-      .closure 300 0, .currClosure, .getFree 3, .setFree 200].all fun i => (encodeI i).length == i.size) = true := by decide
+      .closure 300 0, .currClosure, .getFree 3, .setFree 200,
+      .array 300, .hmap 70000, .getIndex, .setIndex, .getBuiltin 46].all fun i => (encodeI i).length == i.size) = true := by decide
 
 /-! ## the fragment inside the AST -/
 
